@@ -134,7 +134,10 @@ def replay(pid, res, fails):
         anyfail = "NATIVE-FAIL:" in out
         attempts.append(dict(obligation=f["property"], description=f["description"], exit=rc, same_clause_failed=same, sanitizer_report=sanit,
                              other_clause_failed=anyfail and not same, assumption_not_met=(rc == 77), command=cmd, output=out, inputs=c_inputs(inputs)[:400]))
-        if same or sanit or rc == -9:
+        # a sanitizer report / hang only reproduces an obligation that is itself about memory safety or termination
+        kind = f["property"].split(".")[1] if "." in f["property"] else ""
+        safety = kind in ("pointer_dereference", "array_bounds", "overflow", "pointer_arithmetic", "pointer_primitives", "division-by-zero", "undefined-shift", "unwind", "pointer")
+        if same or ((sanit or rc == -9) and safety):
             shutil.copy(unit, os.path.join(vf.VERIF, "replay", "out", "%s__%s__native.c" % (pid, g["name"])))
             return dict(reproduced=True, how="the verifier's initial state was loaded into the natively compiled harness + /repo code (gcc, ASan, UBSan): "
                         + ("the same clause fails" if same else "a sanitizer reports an error" if sanit else "the code does not terminate"),
